@@ -1,10 +1,11 @@
 import Dcg.Driver.Proto
 import Dcg.Model.Determinism
 import Dcg.Gen.SetSites
+import Dcg.Gen.ModuleState
 import Dcg.Model.Write
 import Dcg.Gen.GenerateSteps
 namespace Dcg.Driver.Determinism
-open Dcg.Driver Dcg.Model.Determinism Dcg.Gen.SetSites
+open Dcg.Driver Dcg.Model.Determinism Dcg.Gen.SetSites Dcg.Gen.ModuleState
 
 def siteJustified (s : SetSite) : Bool :=
   s.isSorted || s.kind == k! "comp:set" || orderFreeConsumers.contains s.consumer ||
@@ -27,6 +28,15 @@ def listingOK (s : ListingSite) : Bool :=
   match reviewedListingSites.lookup (s.file, s.func, s.call) with
   | some .sortedByBasenameThenPath => s.isSorted && s.keyShape == k! "basename-then-path"
   | none => false
+
+def escapeOK (e : Escape) : Bool :=
+  if e.mutated then reviewedMutatedAliases.contains (e.file, e.func, e.kind, e.target, e.const)
+  else e.kind == k! "attr" || e.kind == k! "local" || e.kind == k! "classattr" ||
+       (reviewedModuleEscapes.lookup (e.file, e.func, e.kind, e.target, e.const)).isSome
+
+def cacheReadOK (c : CacheRead) : Bool :=
+  (reviewedOutsideCaches.lookup (c.file, c.func)).isSome ||
+  (reviewedPureCaches.contains (c.file, c.func) && !c.pathParam && c.outside.isEmpty)
 
 /-- the sites of `expectedListingSites` that are missing or have another shape -/
 def missingListing : List (Nat × Nat × Nat × Nat) :=
@@ -61,6 +71,15 @@ def handlers : List (String × Handler) := [
       match memoValueWrites.filter (fun w => (reviewedMemoWrites.lookup (w.1, w.2.1, w.2.2.1)).isNone) with
       | [] => "none"
       | bad => "ok " ++ " ".intercalate (bad.map (fun w => s!"({w.1} {w.2.1} {w.2.2.1})"))
+    | [.atom "aliases"] =>
+      match (moduleMutableEscapes.filter (fun e => !escapeOK e)).map (fun e => s!"({e.file} {e.func} {e.kind} {e.target} {e.const})") ++
+            (moduleMutableWrites.filter (fun w => !reviewedModuleWrites.contains w)).map (fun w => s!"({w.1} {w.2.1} {w.2.2.1} {w.2.2.2})") with
+      | [] => "none"
+      | bad => "ok " ++ " ".intercalate bad
+    | [.atom "cachereads"] =>
+      match cacheReads.filter (fun c => !cacheReadOK c) with
+      | [] => "none"
+      | bad => "ok " ++ " ".intercalate (bad.map (fun c => s!"({c.file} {c.func})"))
     | [.atom "cwd"] =>
       match (cwdSites.filter (fun s => (reviewedCwdSites.lookup s).isNone)).map (fun s => s!"({s.1} {s.2.1} {s.2.2})") ++
             (expectedFormatterCwdSites.filter (fun e => !(cwdSites.contains e && reviewedCwdSites.lookup e == some .insideChdirOutput))).map
